@@ -452,8 +452,11 @@ def raise_discipline(ctx):
         t = g[0].test if g else None
         # the pending-error test must not depend on the truth value of a user-defined exception object
         # (an exception class with __len__ / __bool__ may be falsy): `err is not None`, not `if err:`
-        identity = isinstance(t, ast.Compare) and is_name(t.left, errvar) and isinstance(t.ops[0], ast.IsNot) \
-            and isinstance(t.comparators[0], ast.Constant) and t.comparators[0].value is None
+        def _is_none_cmp(x, op):
+            return isinstance(x, ast.Compare) and is_name(x.left, errvar) and isinstance(x.ops[0], op) \
+                and isinstance(x.comparators[0], ast.Constant) and x.comparators[0].value is None
+        identity = _is_none_cmp(t, ast.IsNot) or (isinstance(t, ast.UnaryOp) and isinstance(t.op, ast.Not)
+                                                  and _is_none_cmp(t.operand, ast.Is))
         ctx.ob(identity, u, 'a pending error is detected by identity (`%s is not None`), not by truth value: %s'
                % (errvar, norm(t) if t is not None else None),
                '' if identity else 'an exception whose class defines __len__/__bool__ and is falsy is not re-raised: glom() falls '
